@@ -86,6 +86,8 @@ struct SeqInfo {
     transmissions: u32,
     /// earliest time a copy of any earlier version was handed to the receiving socket
     first_recv: Option<u64>,
+    /// time of the latest transmission so far
+    last_tx: u64,
 }
 
 #[derive(Clone, Debug, Default)]
@@ -169,13 +171,18 @@ pub fn check_wire_dir(
         rep.counters.inc("c01_wire_data_packets_checked");
         if let Some(info) = known.get_mut(&idx) {
             info.transmissions += 1;
+            let prev_tx = info.last_tx;
+            info.last_tx = wp.t;
             if p.payload.len() == info.len {
                 // same length: must be same bytes (checked against the generator below)
             } else if idx == max_idx {
                 // permitted: the newest segment was an unacknowledged size probe that was taken
                 // back and cut again (shorter after a failed probe; it can also come back longer
                 // when the proven size grew in the meantime)
-                if !view.probe_expired_at(wp.src, wp.dst, p.conn_id, wp.t) {
+                // the library's report that the probe timed out lies between the last transmission
+                // of the old version and this one (the pieces leave when the windows allow)
+                let expiry_reported = view.probe_expired_within(wp.src, wp.dst, p.conn_id, prev_tx, wp.t);
+                if !expiry_reported {
                     rep.counters.inc("c01_recuts_of_a_transmitted_probe_without_expiry_report");
                 }
                 if p.payload.len() < info.len {
@@ -196,7 +203,7 @@ pub fn check_wire_dir(
                         // ... and the library itself reports, at this instant, that the probe
                         // timed out and was taken back (hook): a probe taken back for any other
                         // reason is not the known mechanism either
-                        if acked_to_sender >= idx - 1 && view.probe_expired_at(wp.src, wp.dst, p.conn_id, wp.t) {
+                        if acked_to_sender >= idx - 1 && expiry_reported {
                             res.resegmented_after_delivery_at = Some(wp.t);
                             rep.counters.inc("c01_resegmented_after_delivery");
                         } else {
@@ -282,6 +289,7 @@ pub fn check_wire_dir(
                     len: p.payload.len(),
                     transmissions: 1,
                     first_recv: recv_t,
+                    last_tx: wp.t,
                 },
             );
             max_idx = idx;
